@@ -286,6 +286,30 @@ pub proof fn lemma_shift_rows_unique(v: Seq<Row>, p: int, k: int)
     }
 }
 
+// ---- move_row_unchecked: the row-descriptor list after moving row `row` by `delta`: every descriptor keeps its attributes and
+// goes to move1(r) (C15: row sizes, styles and hidden flags follow their rows) ----
+pub open spec fn move1(x: int, m: int, d: int) -> int {
+    if x == m { m + d } else if d > 0 && m < x <= m + d { x - 1 } else if d < 0 && m + d <= x < m { x + 1 } else { x }
+}
+#[verifier::loop_isolation(false)]
+pub fn move_row_descriptors(worksheet: &mut Worksheet, row: i32, delta: i32, target_row: i32)
+    requires small(row as int), small(delta as int), target_row == row + delta, forall|i: int| 0 <= i < old(worksheet).rows@.len() ==> small((#[trigger] old(worksheet).rows@[i]).r as int)
+    ensures
+        final(worksheet).rows@.len() == old(worksheet).rows@.len(),
+        forall|i: int| 0 <= i < old(worksheet).rows@.len() ==> row_same_attrs(old(worksheet).rows@[i], #[trigger] final(worksheet).rows@[i])
+            && final(worksheet).rows@[i].r == move1(old(worksheet).rows@[i].r as int, row as int, delta as int),
+{
+    let ghost oc = worksheet.rows@;
+//@fragment base/src/actions.rs Model::move_row_unchecked `let mut new_rows = Vec::new();` .. `worksheet.rows = new_rows;`
+//@loop 1 it
+            invariant
+                new_rows@.len() == it.index@,
+                forall|i: int| 0 <= i < it.index@ ==> row_same_attrs(oc[i], #[trigger] new_rows@[i]) && new_rows@[i].r == move1(oc[i].r as int, row as int, delta as int),
+//@before `if r.r == row {`
+            assert(*r == oc[it.index@] && small(r.r as int));
+//@end
+}
+
 // ---- sheet ids ----
 #[verifier::external_body] pub struct WorkbookRest { _o: u8 }
 #[verifier::external_body] pub struct ModelRest { _o: u8 }
